@@ -20,7 +20,8 @@ Inductive hop :=
 | HStage (ps : list Staging.path) (ds : list digest) (obs : stage_res)
 | HSupply (cs : list bytes)
 | HTrans (chs : list change) (env : tenv) (obs : trans_res)
-| HEdit (d : disk).
+| HEdit (d : disk)
+| HRestart.   (* the endpoint is shut down and a new instance created over the same staging root *)
 
 (* maximumEntryCount: None = the default 2^64-1; all numerals in case files are nat *)
 Definition lcase := (bool * bool * option nat * disk * list hop)%type.
@@ -71,17 +72,39 @@ Definition to_op (e : ep) (h : hop) : op * res :=
   | HSupply cs => (OSupply cs, RSupply)
   | HTrans chs env obs => (OTransition chs env, RTransition obs)
   | HEdit d => (OEdit d, REdit)
+  | HRestart => (OEdit (dsk e), REdit)   (* not used: see walk *)
   end.
+
+(* "files that still need data": a path handed back as needed although every
+   request item for that path is already in the store (as the model tracks
+   it: staged by an earlier round and not yet consumed by a Transition) *)
+Definition staged_omitted (e : ep) (o : op) (obs : res) : bool :=
+  match o, obs with
+  | OStage ps ds _, RStage (StOk needed) =>
+      forallb (fun p =>
+                 negb (forallb (fun pd => negb (String.eqb (fst pd) p)
+                                          || contains (sto e) (fst pd) (snd pd))
+                               (combine ps ds)))
+              needed
+  | _, _ => true
+  end.
+
+(* a new endpoint instance: flags and counts start afresh, the staging store
+   (on disk) persists *)
+Definition restart (e : ep) : ep :=
+  set_stage (new_ep (ro e) (maxc e) (mxsize e) (dsk e)) false (sto e) [].
 
 (* (model disagrees, checker rejects) over a history *)
 Fixpoint walk (fixed : bool) (e : ep) (hs : list hop) : bool * bool :=
   match hs with
   | [] => (false, false)
+  | HRestart :: t => walk fixed (restart e) t
   | h :: t =>
       let '(o, obs) := to_op e h in
       let '(e', r) := step Hid fixed e o in
       let '(b1, b2) := walk fixed e' t in
-      (negb (res_eqb r obs) || b1, negb (check_op Hid e o obs) || b2)
+      (negb (res_eqb r obs) || b1,
+       negb (check_op Hid e o obs) || negb (staged_omitted e o obs) || b2)
   end.
 
 Fixpoint nodup_paths (l : list Staging.path) : bool :=
